@@ -197,6 +197,20 @@ def run(ctx):
             probs.append("the frame sent is not the received message")
     (ctx.bad if probs else ctx.ok)("X-LPM", "X-LPM:ArpRouter::demux", dm.span, "; ".join(probs) if probs else
         "next hop and interface come from get_recipient(header.destination); no route => early return; task sends on that interface to the resolved MAC")
+    run_panics(ctx)
+
+
+def run_panics(ctx):
+    from . import panic_common as PC
+    prog = ctx.prog()
+    dm = prog.method("ArpRouter", "demux", "Protocol")
+
+    def scope(k):
+        return k.startswith("elvis::applications::arp_router") or k.startswith("elvis_core::ip_table") or \
+            k.startswith("elvis_core::protocols::ipv4::ipv4_parsing") or k.startswith("elvis_core::protocols::arp::subnetting")
+    st = PC.scan(ctx, "P-PANIC", [dm.key], scope, PC.load_table("panic_c16.json"),
+                 stops=[K.SEND_PCI, "elvis_core::protocols::arp::{impl#0}::resolve"])
+    ctx.require(st["sites"] >= 5, "P-PANIC: only %d sites enumerated on the router path" % st["sites"])
 
 
 def _rv_origins(body, bb, st):
